@@ -1,5 +1,5 @@
 """Per-property policy: which rules decide which clause, floors, scope, wording for the evidence."""
-from . import rules_conv, rules_table, rules_codec
+from . import rules_conv, rules_table, rules_codec, rules_layout, rules_effect
 
 import json, os
 
@@ -29,6 +29,8 @@ PROPS = {
             {"run": rules_conv.run, "floor": 300},
             {"run": rules_conv.run_erange, "floor": 5, "scope": "anchors"},
             {"run": rules_table.run_typemap, "floor": 120, "scope": "anchors"},
+            {"run": rules_layout.run_errprop, "floor": 100, "scope": "anchors"},
+            {"run": rules_layout.run_convdest, "floor": 60, "scope": "anchors"},
         ],
     },
     "C06": {
@@ -65,6 +67,28 @@ PROPS = {
         "level_note": "trusts clang constant folding of the macro-expanded formulas; pattern anchors: `++code == E`, conditional `c + K`, `_ctx & 0xff`",
         "rules": [
             {"run": rules_codec.run, "floor": 20},
+        ],
+    },
+    "C20": {
+        "explanation": "PROPTABLE: for axis/line/text/graph/world the getter's (name,type,offset) table is read from the static initialiser: each row's type tag "
+                       "matches the type of the field its offset expression names; the whole-object format[] lines up with the struct's fields (size, number class); "
+                       "every listed name is compared by the setter and that setter branch touches the field the row points to (or the sub-struct holding it); literal "
+                       "row indices in special cases refer to a row whose setter writes the field the special case reads. CONVDEST: every convert(src, K, &field) with "
+                       "constant K targets an object of the C type registered for K. ERRFX: interval analysis with trace partitioning on store sites: no setter path "
+                       "stores into the object and then returns an error (unless a later call decides the failure). DEEPCOPY: pointers freed by *_fini are re-duplicated "
+                       "after the whole-struct copy in *_init. ERRPROP: no status variable receives a comparison result.",
+        "not_decided": "value equality of set/get for every accepted value, colour print/parse round trip, unique-prefix matching behaviour, defaults after reset",
+        "assumptions": ["'c' conversions only yield printable ASCII, so a 1 byte integer field of either signedness holds them"],
+        "technique": "static table extraction (initialisers, offset expressions) + setter branch/field correspondence + interval analysis with trace partitioning for refusal paths",
+        "level_text": "Every row of the five property tables and every name branch of the five setters is enumerated; decides the necessary conditions 'the setter writes what the "
+                      "getter reads, with the registered type and width' and 'a refused value leaves the object unchanged' for all paths of the setters.",
+        "level_note": "direct stores and mem* writes into the object are effects; writes made by callees that receive &obj->field are attributed to the callee's own result (not counted)",
+        "rules": [
+            {"run": rules_layout.run_proptable, "floor": 100},
+            {"run": rules_layout.run_convdest, "floor": 60, "scope": "anchors"},
+            {"run": rules_effect.run_layout, "floor": 5},
+            {"run": rules_layout.run_deepcopy, "floor": 5},
+            {"run": rules_layout.run_errprop, "floor": 100, "scope": "anchors"},
         ],
     },
 }
